@@ -37,11 +37,19 @@ pub fn step_main(args: &[String]) -> ! {
     let inc: Vec<String> = std::fs::read_to_string(format!("{}/includes.{}", ctl, uid)).unwrap_or_default().lines().filter(|l| !l.is_empty()).map(|l| l.to_string()).collect();
     reads.extend(inc.iter().cloned());
     if std::path::Path::new(&format!("{}/fail.{}", ctl, uid)).exists() {
-        if std::path::Path::new(&format!("{}/scribble.{}", ctl, uid)).exists() {
+        let scribble = std::path::Path::new(&format!("{}/scribble.{}", ctl, uid)).exists();
+        if scribble {
             let _ = std::fs::write(&outs[0], "garbage written by a failing command");
         }
         println!("boom {}", uid);
         log("fail");
+        if scribble && uid % 2 == 0 {
+            // die from a signal instead of exiting non-zero (a crashing tool): a failure all the same
+            unsafe {
+                libc::signal(libc::SIGSEGV, libc::SIG_DFL);
+                libc::kill(libc::getpid(), libc::SIGSEGV);
+            }
+        }
         std::process::exit(1);
     }
     let rsp = if rsp_path != "-" { std::fs::read_to_string(rsp_path).unwrap_or_else(|_| "<no rspfile>".into()) } else { String::new() };
